@@ -316,6 +316,12 @@ class RemoteWorker(Worker, metaclass=RemoteWorkerMeta):
                 except OSError:
                     pass
                 self._ctrl_thread_rem.join(timeout)
+                if not self._ctrl_thread_rem.is_alive():
+                    # the exception might have landed after the thread had already left its loop, skipping its own close
+                    try:
+                        self._ctrl_sock.close()
+                    except OSError:
+                        pass
 
             return not alive
         else:
